@@ -465,6 +465,14 @@ def run(ctx: core.Ctx):
                                term=f"(OSet [IVar false ScSession {S('character_set_database')} (RVal (VStr {S('nonsense')}))])"),
                           dict(kind="set", sql=f"SET {kw} {cs}", term=f"(OSet [ICharset (Some {S(cs)})])"),
                           dict(kind="set", sql=f"SET sql_mode = 'x', {kw} {cs}" if False else f"SET {kw} '{cs}'", term=f"(OSet [ICharset (Some {S(cs)})])")])
+        # a refused SET whose value is a subquery carrying SET_VAR hints: the hints are scoped to the (refused) statement, the refusal
+        # rolls the store back - the two mechanisms meet
+        fixed.append([dict(kind="set", sql="SET sql_mode = 'STRICT', max_execution_time = 3",
+                           term=f"(OSet [IVar false ScSession {S('sql_mode')} (RVal (VStr {S('STRICT')})); IVar false ScSession {S('max_execution_time')} (RVal (VInt 3%Z))])"),
+                      dict(kind="set", sql="SET wait_timeout = (SELECT /*+ SET_VAR(sql_mode='LEAK') SET_VAR(max_execution_time=7) */ 1)",
+                           term=f"(OSet [IVar false ScSession {S('wait_timeout')} RComplex])"),
+                      dict(kind="set", sql="SET autocommit = 0, net_write_timeout = (SELECT /*+ SET_VAR(time_zone='+05:00') */ 1)",
+                           term=f"(OSet [IVar false ScSession {S('autocommit')} (RVal (VInt 0%Z)); IVar false ScSession {S('net_write_timeout')} RComplex])")])
         for ro_name in READONLY:
             for rhs_sql, rhs_term in (("DEFAULT", "RDefault"), ("NULL", "(RVal VNone)"), ("'x'", f"(RVal (VStr {S('x')}))")):
                 fixed.append([dict(kind="set", sql=f"SET {ro_name} = {rhs_sql}", term=f"(OSet [IVar false ScSession {S(ro_name)} {rhs_term}])"),
